@@ -20,7 +20,7 @@ var lifeBase = time.Unix(1_700_000_000, 0)
 
 var (
 	lifeTTLs = []string{ttlZero, "1s", "2s", "90s"}
-	lifeKeys = []string{"s1", "s2", "l1"}
+	lifeKeys = []string{"s1", "s2", "l1", "h1", "h1"}
 )
 
 func lifeWriterTag(op Op, class string, got Res) string {
@@ -30,6 +30,10 @@ func lifeWriterTag(op Op, class string, got Res) string {
 	}
 	live := strings.HasPrefix(class, "never-expiring-") || strings.HasPrefix(class, "ttl-")
 	switch op.Kind {
+	case "SetHash":
+		if !live {
+			return "SetHash(create)[default-24h]"
+		}
 	case "Set", "SetList":
 		return op.Kind + ttl
 	case "SetNX":
@@ -89,6 +93,7 @@ func runLife(ops []Op) lifeOut {
 	m := newSeqModel()
 	vnow := lifeBase
 	writers := map[string]string{}
+	lastWrite := map[string]string{} // last mutating call on the key (it may not be the one that set the lifetime)
 	aliveSeen := map[string]bool{}
 	for i, op := range ops {
 		if op.Kind == "advance" {
@@ -104,6 +109,9 @@ func runLife(ops []Op) lifeOut {
 			return out
 		}
 		w := writers[op.Key]
+		if lw := lastWrite[op.Key]; lw != "" && w != "" && !strings.HasPrefix(w, lw) {
+			w += "/last-write=" + lw
+		}
 		if same, symptom := lifeSame(op, got, want); !same {
 			out.step = i
 			expired := strings.HasPrefix(class, "expired-")
@@ -141,6 +149,9 @@ func runLife(ops []Op) lifeOut {
 			if strings.HasPrefix(class, "never-expiring-") && vnow.Sub(lifeBase) > time.Hour {
 				out.observed[w+"/still-there-after-hours"] = true
 			}
+		}
+		if !isRead(op.Kind) {
+			lastWrite[op.Key] = op.Kind
 		}
 		if t := lifeWriterTag(op, class, got); t != "" {
 			writers[op.Key] = t
@@ -208,7 +219,33 @@ func TestRedisLifetimes(t *testing.T) {
 		for i := 0; i < n; i++ {
 			k := rapid.SampledFrom(lifeKeys).Draw(t, "key")
 			op := Op{Key: k, TTL: rapid.SampledFrom(lifeTTLs).Draw(t, "ttl")}
-			if k == "l1" {
+			if k == "h1" {
+				// hashes: SetHash on an absent key gives the 24 h default, on an existing key it must leave
+				// the lifetime alone. A hash that exists always gets a NEW field, so that it never has
+				// exactly one field after HSET (Redis' own test for "new key", see check.json).
+				op.Kind = rapid.SampledFrom([]string{"SetHash", "SetHash", "SetHash", "SetExpiration", "SetExpiration", "Delete"}).Draw(t, "op")
+				h, _ := cur(k).V.(map[string]any)
+				if op.Kind == "SetExpiration" && len(h) == 0 {
+					op.Kind = "SetHash"
+				}
+				if op.Kind == "SetHash" {
+					op.TTL = ""
+					op.Field = rapid.SampledFrom(diffFields).Draw(t, "field")
+					if len(h) == 1 || (len(h) > 0 && rapid.Bool().Draw(t, "newField")) {
+						for _, f := range diffFields {
+							if _, has := h[f]; !has {
+								op.Field = f
+								break
+							}
+						}
+					}
+					if rapid.Bool().Draw(t, "intVal") {
+						op.Val = genEdgeInt(t, "val")
+					} else {
+						op.Val = genDiffStr(t, "val")
+					}
+				}
+			} else if k == "l1" {
 				op.Kind = rapid.SampledFrom([]string{"SetList", "SetList", "SetExpiration", "Delete"}).Draw(t, "op")
 				if op.Kind == "SetList" {
 					m := rapid.IntRange(1, 3).Draw(t, "n")
@@ -242,6 +279,9 @@ func TestRedisLifetimes(t *testing.T) {
 			if k == "l1" {
 				reads = []string{"GetList", "Exists", "GetExpiration"}
 			}
+			if k == "h1" {
+				reads = []string{"GetAllHash", "Exists", "GetExpiration", "GetExpiration"}
+			}
 			read := func() { emit(Op{Kind: rapid.SampledFrom(reads).Draw(t, "read"), Key: k}) }
 			// probe the lifetime the key has now: just before and just after its deadline
 			switch rapid.IntRange(0, 3).Draw(t, "probe") {
@@ -261,7 +301,7 @@ func TestRedisLifetimes(t *testing.T) {
 						read()
 					}
 				} else if e != nil && e.never && e.st.Present {
-					emit(Op{Kind: "advance", N: int64(rapid.SampledFrom([]int{3000, 100_000, 3 * 3600_000}).Draw(t, "long"))})
+					emit(Op{Kind: "advance", N: int64(rapid.SampledFrom([]int{3000, 100_000, 3 * 3600_000, 30 * 3600_000}).Draw(t, "long"))})
 					read()
 				} else {
 					read()
